@@ -1,22 +1,59 @@
 (** Proofs about Model/Refresh.v (C15): a failing refresh is a no-op, equal
-    checksums are not written, what is written is a normal form. *)
+    checksums are not written, what is written is a normal form; the metadata
+    stay in step with the stored files over every history of refreshes and
+    enable / disable calls; disabling takes a list's rules out of force and
+    enabling puts them back. *)
 From Coq Require Import NArith List Bool Lia.
 From AGH Require Import Base.Run Model.RuleListParser Model.Refresh Proofs.RuleListParser.
 Import ListNotations.
 Local Open Scope N_scope.
 
-Lemma fget_fset_eq i c fs : fget i (fset i c fs) = Some c.
-Proof. unfold fget, fset. cbn. now rewrite N.eqb_refl. Qed.
+Lemma fentry_fset_eq i c fs : fentry i (fset i c fs) = Some (fgen i fs + 1, c).
+Proof. unfold fentry, fset. cbn. now rewrite N.eqb_refl. Qed.
 
-Lemma fget_fset_ne i j c fs : i <> j -> fget j (fset i c fs) = fget j fs.
+Lemma fentry_filter_ne i j fs : i <> j ->
+  fentry j (filter (fun e => negb (fst e =? i)) fs) = fentry j fs.
 Proof.
-  intros N. unfold fget, fset. cbn [find fst].
-  destruct (N.eqb_spec i j) as [|_]; [contradiction|].
+  intros N. unfold fentry.
   induction fs as [|[k v] fs IH]; cbn; auto.
   destruct (N.eqb_spec k i) as [->|Nk]; cbn.
   - destruct (N.eqb_spec i j); [contradiction|]. exact IH.
   - destruct (k =? j); auto.
 Qed.
+
+Lemma fentry_fset_ne i j c fs : i <> j -> fentry j (fset i c fs) = fentry j fs.
+Proof.
+  intros N. unfold fset. unfold fentry at 1. cbn [find fst].
+  destruct (N.eqb_spec i j) as [|_]; [contradiction|]. now apply fentry_filter_ne.
+Qed.
+
+Lemma fentry_fdel_eq i fs : fentry i (fdel i fs) = None.
+Proof.
+  unfold fentry, fdel. induction fs as [|[k v] fs IH]; cbn; auto.
+  destruct (N.eqb_spec k i) as [->|Nk]; cbn; auto.
+  destruct (N.eqb_spec k i); [contradiction|]. exact IH.
+Qed.
+
+Lemma fentry_fdel_ne i j fs : i <> j -> fentry j (fdel i fs) = fentry j fs.
+Proof. apply fentry_filter_ne. Qed.
+
+Lemma fget_fset_eq i c fs : fget i (fset i c fs) = Some c.
+Proof. unfold fget. now rewrite fentry_fset_eq. Qed.
+
+Lemma fget_fset_ne i j c fs : i <> j -> fget j (fset i c fs) = fget j fs.
+Proof. intros N. unfold fget. now rewrite fentry_fset_ne. Qed.
+
+Lemma fget_fdel_eq i fs : fget i (fdel i fs) = None.
+Proof. unfold fget. now rewrite fentry_fdel_eq. Qed.
+
+Lemma fget_fdel_ne i j fs : i <> j -> fget j (fdel i fs) = fget j fs.
+Proof. intros N. unfold fget. now rewrite fentry_fdel_ne. Qed.
+
+Lemma fget_of_fentry i fs fs' : fentry i fs' = fentry i fs -> fget i fs' = fget i fs.
+Proof. unfold fget. now intros ->. Qed.
+
+Lemma fgen_of_fentry i fs fs' : fentry i fs' = fentry i fs -> fgen i fs' = fgen i fs.
+Proof. unfold fgen. now intros ->. Qed.
 
 Section Refresh.
   Variable crc : N -> bytes -> N.
@@ -24,25 +61,28 @@ Section Refresh.
   Notation update_all := (update_all crc).
   Notation refresh_array := (refresh_array crc).
   Notation refresh := (refresh crc).
+  Notation set_entry := (set_entry crc).
+  Notation set_in := (set_in crc).
+  Notation set_props := (set_props crc).
+  Notation filled := (filled).
 
   (** The enumerated failures: no reader (connection error, bad status,
       unreadable or unsafe file), a reader that ends in an error at any byte
-      position, content the parser rejects (HTML, binary, over-long line). *)
+      position, content the parser rejects (HTML, binary, over-long line);
+      and a pending file that cannot replace the list's file. *)
   Definition fails (o : outcome) : Prop :=
     match o with
     | OOpenErr => True
     | OBody d re => snd (parse crc d re) <> None
-    | ORenameFail d => snd (parse crc d false) <> None
+    | ORenameFail _ => True
     end.
 
-  Definition failed_upd (l : flist) : upd :=
-    {| u_id := f_id l; u_updated := false; u_err := true; u_count := 0; u_sum := f_sum l |}.
+  Definition failed_upd (l : flist) : upd := {| u_updated := false; u_err := true; u_list := l |}.
 
   Lemma update_one_failed l o fs : fails o -> update_one l o fs = (failed_upd l, fs).
   Proof.
     unfold Refresh.update_one, fails. destruct o as [|d re|d]; auto.
-    - destruct (parse crc d re) as [st [e|]]; cbn; [reflexivity|congruence].
-    - destruct (parse crc d false) as [st [e|]]; cbn; [reflexivity|congruence].
+    destruct (parse crc d re) as [st [e|]]; cbn; [reflexivity|congruence].
   Qed.
 
   (** A body cut by a read error fails wherever it is cut. *)
@@ -51,62 +91,78 @@ Section Refresh.
     cbn. destruct (parse crc d true) as [st e] eqn:P. cbn. eapply parse_read_error; eauto.
   Qed.
 
+  (** So does a download whose pending file cannot replace the list's file. *)
+  Lemma rename_failure_fails d : fails (ORenameFail d).
+  Proof. exact I. Qed.
+
   (** Same checksum: nothing is written, nothing is reported as updated. *)
   Lemma update_one_same_checksum l d re st fs :
     parse crc d re = (st, None) -> p_sum st = f_sum l ->
-    update_one l (OBody d re) fs =
-      ({| u_id := f_id l; u_updated := false; u_err := false; u_count := 0; u_sum := f_sum l |}, fs).
+    update_one l (OBody d re) fs = ({| u_updated := false; u_err := false; u_list := l |}, fs).
   Proof. intros P E. unfold Refresh.update_one. now rewrite P, E, N.eqb_refl. Qed.
 
   (** The file is written only on success, and then with a normal form whose
-      re-parse gives the recorded count and checksum. *)
+      re-parse gives the recorded count and checksum; otherwise the structure
+      [update] worked on is untouched as well. *)
   Lemma update_one_cases l o fs :
     let '(u, fs') := update_one l o fs in
-    (u_updated u = false /\ fs' = fs) \/
-    (exists d, o = ORenameFail d /\ fs' = fs /\ u_updated u = true /\ u_err u = true /\
-               u_count u = 0 /\ u_sum u = f_sum l) \/
+    (u_updated u = false /\ fs' = fs /\ u_list u = l) \/
     (exists d re st, o = OBody d re /\ parse crc d re = (st, None) /\ p_sum st <> f_sum l /\
-       u_updated u = true /\ u_err u = false /\ u_count u = p_count st /\ u_sum u = p_sum st /\
+       u_updated u = true /\ u_err u = false /\ u_list u = filled l st /\
        fs' = fset (f_id l) (output st) fs /\
        exists st', parse crc (output st) false = (st', None) /\ output st' = output st /\
                    p_count st' = p_count st /\ p_sum st' = p_sum st).
   Proof.
-    unfold Refresh.update_one. destruct o as [|d re|d]; [now left| |].
-    - destruct (parse crc d re) as [st [e|]] eqn:P; [now left|].
-      destruct (N.eqb_spec (p_sum st) (f_sum l)); [now left|].
-      right; right. exists d, re, st. repeat split; auto.
-      destruct (parse_fixed_point crc _ _ _ P) as (st' & A & B & C & D & _). eauto.
-    - destruct (parse crc d false) as [st [e|]] eqn:P; [now left|].
-      destruct (N.eqb_spec (p_sum st) (f_sum l)); [now left|].
-      right; left. exists d. repeat split; auto.
+    unfold Refresh.update_one. destruct o as [|d re|d]; [now left| |now left].
+    destruct (parse crc d re) as [st [e|]] eqn:P; [now left|].
+    destruct (N.eqb_spec (p_sum st) (f_sum l)); [now left|].
+    right. exists d, re, st. repeat split; auto.
+    destruct (parse_fixed_point crc _ _ _ P) as (st' & A & B & C & D & _). eauto.
   Qed.
 
-  Lemma update_one_id l o fs : u_id (fst (update_one l o fs)) = f_id l.
+  Lemma update_one_id l o fs : f_id (u_list (fst (update_one l o fs))) = f_id l.
+  Proof.
+    pose proof (update_one_cases l o fs) as C. destruct (update_one l o fs) as [u fs']. cbn [fst].
+    destruct C as [(_ & _ & ->)|(d & re & st & _ & _ & _ & _ & _ & -> & _)]; reflexivity.
+  Qed.
+
+  Lemma update_one_enabled l o fs : f_enabled (u_list (fst (update_one l o fs))) = f_enabled l.
+  Proof.
+    pose proof (update_one_cases l o fs) as C. destruct (update_one l o fs) as [u fs']. cbn [fst].
+    destruct C as [(_ & _ & ->)|(d & re & st & _ & _ & _ & _ & _ & -> & _)]; reflexivity.
+  Qed.
+
+  (** The flags and the working copy do not depend on the files. *)
+  Lemma update_one_fst l o fs fs2 : fst (update_one l o fs) = fst (update_one l o fs2).
   Proof.
     unfold Refresh.update_one. destruct o as [|d re|d]; auto.
-    - destruct (parse crc d re) as [st [e|]]; auto. destruct (p_sum st =? f_sum l); auto.
-    - destruct (parse crc d false) as [st [e|]]; auto. destruct (p_sum st =? f_sum l); auto.
+    destruct (parse crc d re) as [st [e|]]; auto. destruct (p_sum st =? f_sum l); auto.
   Qed.
 
-  Lemma update_one_fget l o fs i :
+  (** [update] on list [l] touches no file but [l]'s. *)
+  Lemma update_one_other l o fs j : f_id l <> j -> fentry j (snd (update_one l o fs)) = fentry j fs.
+  Proof.
+    intros N. pose proof (update_one_cases l o fs) as C. destruct (update_one l o fs) as [u fs']. cbn [snd].
+    destruct C as [(_ & -> & _)|(d & re & st & _ & _ & _ & _ & _ & _ & -> & _)]; auto.
+    now apply fentry_fset_ne.
+  Qed.
+
+  Lemma update_one_fentry l o fs i :
     (f_id l = i -> fails o) ->
-    fget i (snd (update_one l o fs)) = fget i fs /\
-    (u_id (fst (update_one l o fs)) = i -> u_updated (fst (update_one l o fs)) = false).
+    fentry i (snd (update_one l o fs)) = fentry i fs /\
+    (f_id (u_list (fst (update_one l o fs))) = i -> u_updated (fst (update_one l o fs)) = false).
   Proof.
     intros H. destruct (N.eq_dec (f_id l) i) as [E|E].
     - rewrite (update_one_failed l o fs (H E)). auto.
-    - split; [|rewrite update_one_id; congruence].
-      pose proof (update_one_cases l o fs) as C. destruct (update_one l o fs) as [u fs'].
-      cbn [snd]. destruct C as [[_ ->]|[(d & _ & -> & _)|(d & re & st & _ & _ & _ & _ & _ & _ & _ & -> & _)]]; auto.
-      now apply fget_fset_ne.
+    - split; [now apply update_one_other|rewrite update_one_id; congruence].
   Qed.
 
-  Lemma update_all_fget i oc : fails (oc i) -> forall ls fs,
-    fget i (snd (update_all ls oc fs)) = fget i fs /\
-    Forall (fun u => u_id u = i -> u_updated u = false) (fst (update_all ls oc fs)).
+  Lemma update_all_fentry i oc : fails (oc i) -> forall ls fs,
+    fentry i (snd (update_all ls oc fs)) = fentry i fs /\
+    Forall (fun u => f_id (u_list u) = i -> u_updated u = false) (fst (update_all ls oc fs)).
   Proof.
     intros Hf. induction ls as [|l ls IH]; intros fs; cbn [Refresh.update_all]; [split; [reflexivity|constructor]|].
-    pose proof (update_one_fget l (oc (f_id l)) fs i) as H1.
+    pose proof (update_one_fentry l (oc (f_id l)) fs i) as H1.
     destruct (update_one l (oc (f_id l)) fs) as [u fs1]. cbn [fst snd] in H1.
     specialize (IH fs1). destruct (update_all ls oc fs1) as [us fs2]. cbn [fst snd] in *.
     destruct H1 as [A B]; [intros <-; exact Hf|]. destruct IH as [C D].
@@ -122,13 +178,41 @@ Section Refresh.
     intros; apply H; now right.
   Qed.
 
-  Lemma apply_upd_unchanged us f :
-    Forall (fun u => u_id u = f_id f -> u_updated u = false) us -> apply_upd us f = f.
+  (** ** The copy-back loop *)
+
+  Lemma copy_back_id u f : f_id (copy_back u f) = f_id f.
+  Proof. unfold copy_back. destruct (_ && _); reflexivity. Qed.
+
+  Lemma copy_back_enabled u f : f_enabled (copy_back u f) = f_enabled f.
+  Proof. unfold copy_back. destruct (_ && _); reflexivity. Qed.
+
+  Lemma copy_back_all_length us : forall ls, length (snd (copy_back_all us ls)) = length ls.
   Proof.
-    intros H. unfold apply_upd.
-    destruct (find _ us) as [u|] eqn:F; auto.
-    apply find_some in F. destruct F as [Hin Hb]. apply andb_true_iff in Hb. destruct Hb as [Hi Hu].
-    apply N.eqb_eq in Hi. eapply Forall_forall in H; eauto. rewrite (H Hi) in Hu. discriminate.
+    induction us as [|u us IH]; intros ls; cbn [copy_back_all snd]; auto.
+    specialize (IH (map (copy_back u) ls)). destruct (copy_back_all us (map (copy_back u) ls)) as [n ls'].
+    cbn [snd] in *. now rewrite IH, map_length.
+  Qed.
+
+  Lemma copy_back_all_unchanged i us :
+    Forall (fun u => f_id (u_list u) = i -> u_updated u = false) us ->
+    forall ls k l, nth_error ls k = Some l -> f_id l = i ->
+                   nth_error (snd (copy_back_all us ls)) k = Some l.
+  Proof.
+    induction 1 as [|u us Hu _ IH]; intros ls k l Hk Hi; cbn [copy_back_all snd]; auto.
+    specialize (IH (map (copy_back u) ls) k l).
+    destruct (copy_back_all us (map (copy_back u) ls)) as [n ls']. cbn [snd] in *.
+    apply IH; auto. rewrite nth_error_map, Hk. cbn. f_equal.
+    unfold copy_back. destruct (N.eqb_spec (f_id (u_list u)) (f_id l)) as [E|E]; cbn; auto.
+    rewrite Hu by congruence. reflexivity.
+  Qed.
+
+  Lemma existsb_copy_back_all (P : flist -> bool) us :
+    (forall u f, P (copy_back u f) = P f) ->
+    forall ls, existsb P (snd (copy_back_all us ls)) = existsb P ls.
+  Proof.
+    intros HP. induction us as [|u us IH]; intros ls; cbn [copy_back_all snd]; auto.
+    specialize (IH (map (copy_back u) ls)). destruct (copy_back_all us (map (copy_back u) ls)) as [n ls'].
+    cbn [snd] in *. rewrite IH. clear IH. induction ls as [|f ls IH]; cbn; auto. now rewrite HP, IH.
   Qed.
 
   (** ** One list fails: its file and its metadata stay *)
@@ -136,25 +220,25 @@ Section Refresh.
   Lemma refresh_array_failed_list i ls force due oc fs :
     fails (oc i) ->
     let '(_, _, ls', fs') := refresh_array ls force due oc fs in
-    fget i fs' = fget i fs /\
+    fentry i fs' = fentry i fs /\
     length ls' = length ls /\
     forall k l, nth_error ls k = Some l -> f_id l = i -> nth_error ls' k = Some l.
   Proof.
     intros Hf. unfold Refresh.refresh_array.
-    set (to_upd := filter _ ls). destruct to_upd as [|t0 tu] eqn:Et; [auto|].
+    set (to_upd := map wcopy (filter _ ls)). destruct to_upd as [|t0 tu] eqn:Et; [auto|].
     rewrite <- Et. clear Et.
-    destruct (update_all_fget i oc Hf to_upd fs) as [A B].
+    destruct (update_all_fentry i oc Hf to_upd fs) as [A B].
     destruct (update_all to_upd oc fs) as [us fs']. cbn [fst snd] in *.
     destruct (forallb u_err us); [auto|].
-    split; auto. split; [apply map_length|].
-    intros k l Hk Hi. rewrite nth_error_map, Hk. cbn. f_equal. apply apply_upd_unchanged.
-    now rewrite Hi.
+    pose proof (copy_back_all_length us ls) as L.
+    pose proof (copy_back_all_unchanged i us B ls) as U.
+    destruct (copy_back_all us ls) as [n ls']. cbn [snd] in *. auto.
   Qed.
 
   Theorem refresh_failed_list_noop i b a force due oc st :
     fails (oc i) ->
     let st' := refresh b a force due oc st in
-    fget i (r_files st') = fget i (r_files st) /\
+    fentry i (r_files st') = fentry i (r_files st) /\
     (forall k l, nth_error (r_block st) k = Some l -> f_id l = i -> nth_error (r_block st') k = Some l) /\
     (forall k l, nth_error (r_allow st) k = Some l -> f_id l = i -> nth_error (r_allow st') k = Some l).
   Proof.
@@ -185,8 +269,7 @@ Section Refresh.
     (lookup i (e_block e), lookup i (e_allow e)).
 
   Definition engine_consistent (st : rstate) : Prop :=
-    r_engine st = {| e_block := snapshot (r_block st) (r_files st);
-                     e_allow := snapshot (r_allow st) (r_files st) |}.
+    r_engine st = rebuild (r_block st) (r_allow st) (r_files st).
 
   Lemma lookup_snapshot i fs : forall ls,
     lookup i (snapshot ls fs)
@@ -202,22 +285,17 @@ Section Refresh.
       rewrite IH, <- E, G. destruct (existsb (fun l0 => (f_id l0 =? f_id l) && f_enabled l0) ls); reflexivity.
   Qed.
 
-  Lemma existsb_apply_upd i us ls :
-    existsb (fun l => (f_id l =? i) && f_enabled l) (map (apply_upd us) ls)
-    = existsb (fun l => (f_id l =? i) && f_enabled l) ls.
-  Proof.
-    induction ls as [|l ls IH]; cbn [map existsb]; auto. rewrite IH. f_equal.
-    unfold apply_upd. destruct (find _ us); reflexivity.
-  Qed.
-
   Lemma refresh_array_enabled i ls force due oc fs :
     let '(_, _, ls', _) := refresh_array ls force due oc fs in
     existsb (fun l => (f_id l =? i) && f_enabled l) ls'
     = existsb (fun l => (f_id l =? i) && f_enabled l) ls.
   Proof.
-    unfold Refresh.refresh_array. destruct (filter _ ls) as [|t0 tu]; auto.
+    unfold Refresh.refresh_array. destruct (map wcopy (filter _ ls)) as [|t0 tu]; auto.
     destruct (update_all (t0 :: tu) oc fs) as [us fs']. destruct (forallb u_err us); auto.
-    apply existsb_apply_upd.
+    pose proof (existsb_copy_back_all (fun l => (f_id l =? i) && f_enabled l) us) as E.
+    destruct (copy_back_all us ls) as [n ls'] eqn:C.
+    specialize (E (fun u f => eq_trans (f_equal2 andb (f_equal (fun x => x =? i) (copy_back_id u f)) (copy_back_enabled u f)) eq_refl) ls).
+    now rewrite C in E.
   Qed.
 
   Theorem refresh_failed_list_in_force i b a force due oc st :
@@ -234,7 +312,8 @@ Section Refresh.
     { destruct b; [|auto].
       pose proof (refresh_array_failed_list i (r_block st) force due oc (r_files st) Hf) as A.
       pose proof (refresh_array_enabled i (r_block st) force due oc (r_files st)) as B.
-      destruct (refresh_array (r_block st) force due oc (r_files st)) as [[[? ?] ?] ?]. tauto. }
+      destruct (refresh_array (r_block st) force due oc (r_files st)) as [[[? ?] ?] ?].
+      split; [apply fget_of_fentry|]; tauto. }
     destruct (if b then _ else _) as [[[n1 e1] bl] fs1]. destruct H1 as [F1 X1].
     assert (H2 : let '(_, _, al, fs2) :=
                    (if a then refresh_array (r_allow st) force due oc fs1
@@ -245,10 +324,11 @@ Section Refresh.
     { destruct a; [|auto].
       pose proof (refresh_array_failed_list i (r_allow st) force due oc fs1 Hf) as A.
       pose proof (refresh_array_enabled i (r_allow st) force due oc fs1) as B.
-      destruct (refresh_array (r_allow st) force due oc fs1) as [[[? ?] ?] ?]. tauto. }
+      destruct (refresh_array (r_allow st) force due oc fs1) as [[[? ?] ?] ?].
+      split; [apply fget_of_fentry|]; tauto. }
     destruct (if a then _ else _) as [[[n2 e2] al] fs2]. destruct H2 as [F2 X2].
     cbn [r_engine]. destruct (e1 || e2); auto. destruct (n1 + n2 =? 0); auto.
-    rewrite Hc. unfold in_force. cbn [e_block e_allow].
+    rewrite Hc. unfold in_force, rebuild. cbn [e_block e_allow].
     rewrite !lookup_snapshot, X1, X2, F2, F1. reflexivity.
   Qed.
 
@@ -262,8 +342,10 @@ Section Refresh.
     exists e, refresh_array ls force due oc fs = (0, e, ls, fs).
   Proof.
     intros H. unfold Refresh.refresh_array.
-    set (to_upd := filter _ ls). assert (Hs : forall l, In l to_upd -> In l ls).
-    { intros l Hl. apply filter_In in Hl. tauto. }
+    set (to_upd := map wcopy (filter _ ls)).
+    assert (Hs : forall l, In l to_upd -> fails (oc (f_id l))).
+    { intros l Hl. apply in_map_iff in Hl. destruct Hl as (l0 & <- & Hl). apply filter_In in Hl.
+      cbn. apply H. tauto. }
     destruct to_upd as [|t0 tu] eqn:Et; [eauto|]. rewrite <- Et in *. clear Et.
     rewrite update_all_all_failed by auto. rewrite forallb_err_failed. eauto.
   Qed.
@@ -299,11 +381,11 @@ End Refresh.
 (** * Non-vacuity *)
 Module RExamples.
   Definition good : bytes := [124;124;112;49;94;10].     (* ||p1^ *)
+  Definition good2 : bytes := [124;124;112;50;94;10].    (* ||p2^ *)
   Definition html : bytes := [60;104;116;109;108;62;10]. (* <html> *)
+  Definition mk (i : N) : flist := {| f_id := i; f_enabled := true; f_name := []; f_count := 0; f_sum := 0 |}.
   Definition st0 : rstate :=
-    {| r_block := [{| f_id := 1; f_enabled := true; f_count := 0; f_sum := 0 |}];
-       r_allow := [{| f_id := 11; f_enabled := true; f_count := 0; f_sum := 0 |}];
-       r_files := []; r_engine := {| e_block := []; e_allow := [] |} |}.
+    {| r_block := [mk 1]; r_allow := [mk 11]; r_files := []; r_engine := {| e_block := []; e_allow := [] |} |}.
   Definition all (_ : N) := true.
   Definition st1 := refresh crc32_update true true true all (fun _ => OBody good false) st0.
 End RExamples.
@@ -311,6 +393,7 @@ End RExamples.
 Example refresh_example :
   fget 1 (r_files RExamples.st1) = Some RExamples.good /\
   map f_count (r_block RExamples.st1) = [1] /\
+  map f_name (r_block RExamples.st1) = [[76; 105; 115; 116; 32; 49]] /\
   verdict (r_engine RExamples.st1) [112;49] = 2 /\
   fails crc32_update (OBody RExamples.html false) /\
   fails crc32_update (OBody (firstn 3 RExamples.good) true) /\
@@ -318,28 +401,22 @@ Example refresh_example :
     (fun i => if i =? 1 then OBody RExamples.html false else OOpenErr) RExamples.st1 = RExamples.st1.
 Proof. vm_compute. repeat split; congruence. Qed.
 
-(** A failing rename of the pending file ([CloseReplace]) is not one of the
-    failures the property lists, and the code does not treat it as one: the
-    file stays, but the update is still reported ([ok] remains true in
-    [updateIntl]), so when another list of the same array succeeds the entry
-    gets the rule count of the never-filled working copy, 0. *)
+(** A failing replacement of the pending file beside a list that is updated:
+    the first list keeps file, rule count, checksum and name. *)
 Module RenameFail.
   Import RExamples.
   Definition st_a : rstate :=
-    {| r_block := [{| f_id := 1; f_enabled := true; f_count := 0; f_sum := 0 |};
-                   {| f_id := 2; f_enabled := true; f_count := 0; f_sum := 0 |}];
-       r_allow := []; r_files := []; r_engine := {| e_block := []; e_allow := [] |} |}.
-  Definition good2 : bytes := [124;124;112;50;94;10].    (* ||p2^ *)
+    {| r_block := [mk 1; mk 2]; r_allow := []; r_files := []; r_engine := {| e_block := []; e_allow := [] |} |}.
   Definition st_b := refresh crc32_update true true true all (fun _ => OBody good false) st_a.
   Definition st_c := refresh crc32_update true true true all
                        (fun i => if i =? 1 then ORenameFail good2 else OBody good2 false) st_b.
 End RenameFail.
 
-Example rename_failure_resets_count :
-  fget 1 (r_files RenameFail.st_b) = Some RExamples.good /\
+Example rename_failure_example :
+  fentry 1 (r_files RenameFail.st_b) = Some (1, RExamples.good) /\
   map f_count (r_block RenameFail.st_b) = [1; 1] /\
-  fget 1 (r_files RenameFail.st_c) = fget 1 (r_files RenameFail.st_b) /\
-  map f_count (r_block RenameFail.st_c) = [0; 1] /\
-  map f_sum (r_block RenameFail.st_c) <> map f_sum (r_block RenameFail.st_b) /\
-  nth 0 (map f_sum (r_block RenameFail.st_c)) 0 = nth 0 (map f_sum (r_block RenameFail.st_b)) 0.
+  fentry 1 (r_files RenameFail.st_c) = fentry 1 (r_files RenameFail.st_b) /\
+  nth_error (r_block RenameFail.st_c) 0 = nth_error (r_block RenameFail.st_b) 0 /\
+  fentry 2 (r_files RenameFail.st_c) = Some (2, RExamples.good2) /\
+  verdict (r_engine RenameFail.st_c) [112;49] = 1 /\ verdict (r_engine RenameFail.st_c) [112;50] = 1.
 Proof. vm_compute. repeat split; congruence. Qed.
